@@ -401,10 +401,19 @@ struct Legacy
     int cnDecl = 0;       // prefix for cellml:units declared on 0 math, 1 cn, 2 the model element
     int dropped = 0;      // 1: 1.x-only constructs present (RDF block on model/component/variable, reaction+role, base_units="yes")
     int cnSpelling = 0;   // 1: liter/meter also in cellml:units on cn (separate dimension; not part of the product by default)
+    // child ORDER wherever CellML 1.x leaves it open (0 = the canonical order used by all other dimensions)
+    int relPos = 0;       // relationship_ref(s) of the encapsulation group: 0 before the component_ref trees, 1 after them, 2 between the
+                          // first and the second tree; group==3 only: 3 containment first + encapsulation last, 4 encapsulation first + containment last
+    int relSwap = 0;      // group==3: 1 = the encapsulation relationship_ref comes before the containment one
+    int modelOrder = 0;   // rank of the permutation of the model's child blocks present out of [RDF, imports, units, components, groups, connections]
+    int compOrder = 0;    // rank of the permutation of the component child kinds present out of [RDF, units, variables, reaction, math]
+    int importOrder = 0;  // 1: components before units inside an import, and the import elements in reverse order
+    // mapcomp additionally takes the value 2: map_components after the first map_variables (between two of them when there are several)
     json toJson() const
     {
         return {{"ns", ns ? "1.1" : "1.0"}, {"group", group}, {"mapcomp", mapcomp}, {"ifOrder", ifOrder}, {"inout", inout}, {"explicitNone", explicitNone},
-                {"unitsPlace", unitsPlace}, {"idStyle", idStyle}, {"spelling", spelling}, {"cnDecl", cnDecl}, {"dropped", dropped}, {"cnSpelling", cnSpelling}};
+                {"unitsPlace", unitsPlace}, {"idStyle", idStyle}, {"spelling", spelling}, {"cnDecl", cnDecl}, {"dropped", dropped}, {"cnSpelling", cnSpelling},
+                {"relPos", relPos}, {"relSwap", relSwap}, {"modelOrder", modelOrder}, {"compOrder", compOrder}, {"importOrder", importOrder}};
     }
 };
 inline bool usesSpelling(const Spec &s)
@@ -508,6 +517,48 @@ inline Legacy legacyAt(const Spec &s, uint64_t i)
     return l;
 }
 
+inline std::vector<int> unrankPerm(uint64_t rank, int n);
+// which child blocks a model / the components of a spec have under the given choices (the order dimensions permute these)
+inline std::vector<char> modelBlocks(const Spec &s, const Legacy &l)
+{
+    std::vector<char> b;
+    if (l.dropped) b.push_back('R');
+    if (hasImports(s)) b.push_back('I');
+    bool modelUnits = false;
+    for (size_t i = 0; i < s.units.size(); ++i) if (!s.units[i].imp.on && !(l.unitsPlace && unitsHome(s, i) >= 0)) modelUnits = true;
+    if (modelUnits) b.push_back('U');
+    bool local = false;
+    for (auto &c : s.comps) if (!c.imp.on) local = true;
+    if (local) b.push_back('C');
+    if (hasHierarchy(s)) b.push_back('G');
+    if (!s.conns.empty()) b.push_back('K');
+    return b;
+}
+inline std::vector<char> componentKinds(const Spec &s, const Legacy &l)
+{
+    bool u = false, v = false, m = false;
+    for (size_t ci = 0; ci < s.comps.size(); ++ci) {
+        if (s.comps[ci].imp.on) continue;
+        if (l.unitsPlace) for (size_t i = 0; i < s.units.size(); ++i) if (unitsHome(s, i) == int(ci)) u = true;
+        if (!s.comps[ci].vars.empty()) v = true;
+        if (!s.comps[ci].math.empty()) m = true;
+    }
+    std::vector<char> k;
+    if (l.dropped) k.push_back('R');
+    if (u) k.push_back('U');
+    if (v) k.push_back('V');
+    if (l.dropped && v) k.push_back('X');
+    if (m) k.push_back('M');
+    return k;
+}
+inline uint64_t factorial(size_t n) { uint64_t f = 1; for (size_t i = 2; i <= n; ++i) f *= i; return f; }
+inline int encapsulationTrees(const Spec &s)
+{
+    int n = 0;
+    for (int r : childrenOf(s, -1)) if (!childrenOf(s, r).empty()) ++n;
+    return n;
+}
+
 inline std::string xml1x(const Spec &s, const Legacy &l)
 {
     const char *ns = l.ns ? NS11 : NS10;
@@ -515,15 +566,23 @@ inline std::string xml1x(const Spec &s, const Legacy &l)
     auto spell = [&](const std::string &n) { return !l.spelling ? n : n == "litre" ? std::string("liter") : n == "metre" ? std::string("meter") : n; };
     std::function<std::string(const std::string &)> cnSpell = [&](const std::string &n) { return !l.cnSpelling ? n : n == "litre" ? std::string("liter") : n == "metre" ? std::string("meter") : n; };
     const std::string rdf = std::string("<rdf:RDF xmlns:rdf=\"") + NSRDF + "\"><rdf:Description rdf:about=\"#x\"/></rdf:RDF>";
-    std::string x = "<?xml version=\"1.0\" encoding=\"UTF-8\"?>\n<model xmlns=\"" + std::string(ns) + "\" xmlns:cmeta=\"" + NSCMETA + "\"";
-    if (l.cnDecl == 2) x += std::string(" xmlns:cellml=\"") + ns + "\"";
-    x += att("name", s.name) + idatt(s.id) + ">\n";
-    if (l.dropped) x += "  " + rdf + "\n";
-    for (auto &g : importGroups(s)) {
-        x += std::string("  <import xmlns:xlink=\"") + NSXLINK + "\"" + att("xlink:href", g.head.href) + idatt(g.head.iid) + ">\n";
-        for (int i : g.units) x += "    <units" + att("units_ref", s.units[size_t(i)].imp.ref) + att("name", s.units[size_t(i)].name) + idatt(s.units[size_t(i)].id) + "/>\n";
-        for (int i : g.comps) x += "    <component" + att("component_ref", s.comps[size_t(i)].imp.ref) + att("name", s.comps[size_t(i)].name) + idatt(s.comps[size_t(i)].id) + "/>\n";
-        x += "  </import>\n";
+    std::string head = "<?xml version=\"1.0\" encoding=\"UTF-8\"?>\n<model xmlns=\"" + std::string(ns) + "\" xmlns:cmeta=\"" + NSCMETA + "\"";
+    if (l.cnDecl == 2) head += std::string(" xmlns:cellml=\"") + ns + "\"";
+    head += att("name", s.name) + idatt(s.id) + ">\n";
+    std::map<char, std::string> block;
+    if (l.dropped) block['R'] = "  " + rdf + "\n";
+    {
+        std::vector<std::string> imports;
+        for (auto &g : importGroups(s)) {
+            std::string x = std::string("  <import xmlns:xlink=\"") + NSXLINK + "\"" + att("xlink:href", g.head.href) + idatt(g.head.iid) + ">\n";
+            std::string us, cs;
+            for (int i : g.units) us += "    <units" + att("units_ref", s.units[size_t(i)].imp.ref) + att("name", s.units[size_t(i)].name) + idatt(s.units[size_t(i)].id) + "/>\n";
+            for (int i : g.comps) cs += "    <component" + att("component_ref", s.comps[size_t(i)].imp.ref) + att("name", s.comps[size_t(i)].name) + idatt(s.comps[size_t(i)].id) + "/>\n";
+            x += l.importOrder ? cs + us : us + cs;
+            imports.push_back(x + "  </import>\n");
+        }
+        if (l.importOrder) std::reverse(imports.begin(), imports.end());
+        for (auto &x : imports) block['I'] += x;
     }
     auto unitsXml = [&](const UnitsDef &u, const std::string &ind) {
         std::string y = ind + "<units" + att("name", u.name) + idatt(u.id);
@@ -539,38 +598,42 @@ inline std::string xml1x(const Spec &s, const Legacy &l)
     };
     for (size_t i = 0; i < s.units.size(); ++i) {
         if (s.units[i].imp.on || (l.unitsPlace && unitsHome(s, i) >= 0)) continue;
-        x += unitsXml(s.units[i], "  ");
+        block['U'] += unitsXml(s.units[i], "  ");
     }
+    auto kinds = componentKinds(s, l);
+    std::vector<int> kperm = unrankPerm(uint64_t(l.compOrder) % factorial(kinds.size()), int(kinds.size()));
     for (size_t ci = 0; ci < s.comps.size(); ++ci) {
         auto &c = s.comps[ci];
         if (c.imp.on) continue;
-        x += "  <component" + att("name", c.name) + idatt(c.id) + ">\n";
-        if (l.dropped) x += "    " + rdf + "\n";
-        if (l.unitsPlace) for (size_t i = 0; i < s.units.size(); ++i) if (unitsHome(s, i) == int(ci)) x += unitsXml(s.units[i], "    ");
+        std::map<char, std::string> part;
+        if (l.dropped) part['R'] = "    " + rdf + "\n";
+        if (l.unitsPlace) for (size_t i = 0; i < s.units.size(); ++i) if (unitsHome(s, i) == int(ci)) part['U'] += unitsXml(s.units[i], "    ");
         for (auto &v : c.vars) {
             bool pub = v.iface == "public" || v.iface == "public_and_private", priv = v.iface == "private" || v.iface == "public_and_private";
             static const char *io[3][2] = {{"in", "out"}, {"out", "in"}, {"out", "out"}};
             std::string a = pub ? att("public_interface", io[l.inout][0]) : l.explicitNone ? att("public_interface", "none") : std::string();
             std::string b = priv ? att("private_interface", io[l.inout][1]) : l.explicitNone ? att("private_interface", "none") : std::string();
-            x += "    <variable" + att("name", v.name) + attIf("units", spell(v.units)) + attIf("initial_value", v.init) + (l.ifOrder ? b + a : a + b) + idatt(v.id);
-            if (l.dropped) x += ">" + rdf + "</variable>\n"; else x += "/>\n";
+            part['V'] += "    <variable" + att("name", v.name) + attIf("units", spell(v.units)) + attIf("initial_value", v.init) + (l.ifOrder ? b + a : a + b) + idatt(v.id);
+            if (l.dropped) part['V'] += ">" + rdf + "</variable>\n"; else part['V'] += "/>\n";
         }
         if (l.dropped && !c.vars.empty())
-            x += "    <reaction reversible=\"no\"><variable_ref" + att("variable", c.vars[0].name) + "><role role=\"reactant\" direction=\"forward\" stoichiometry=\"1\"/></variable_ref></reaction>\n";
-        for (auto &m : c.math) x += "    " + mathXml(m, ns, l.cnDecl, cnSpell) + "\n";
-        x += "  </component>\n";
+            part['X'] = "    <reaction reversible=\"no\"><variable_ref" + att("variable", c.vars[0].name) + "><role role=\"reactant\" direction=\"forward\" stoichiometry=\"1\"/></variable_ref></reaction>\n";
+        for (auto &m : c.math) part['M'] += "    " + mathXml(m, ns, l.cnDecl, cnSpell) + "\n";
+        block['C'] += "  <component" + att("name", c.name) + idatt(c.id) + ">\n";
+        for (int k : kperm) block['C'] += part[kinds[size_t(k)]];
+        block['C'] += "  </component>\n";
     }
     if (hasHierarchy(s)) {
-        std::string body;
-        std::function<void(int, int)> ref = [&](int c, int depth) {
+        std::vector<std::string> trees;
+        std::function<void(std::string &, int, int)> ref = [&](std::string &body, int c, int depth) {
             auto kids = childrenOf(s, c);
             body += std::string(size_t(4 + 2 * depth), ' ') + "<component_ref" + att("component", s.comps[size_t(c)].name) + idatt(s.comps[size_t(c)].eid);
             if (kids.empty()) { body += "/>\n"; return; }
             body += ">\n";
-            for (int k : kids) ref(k, depth + 1);
+            for (int k : kids) ref(body, k, depth + 1);
             body += std::string(size_t(4 + 2 * depth), ' ') + "</component_ref>\n";
         };
-        for (int r : childrenOf(s, -1)) if (!childrenOf(s, r).empty()) ref(r, 0);
+        for (int r : childrenOf(s, -1)) if (!childrenOf(s, r).empty()) { trees.emplace_back(); ref(trees.back(), r, 0); }
         // the containment group lists the SAME components the other way up: if the parser took it for the encapsulation the hierarchy would be wrong
         std::string contain = "  <group>\n    <relationship_ref relationship=\"containment\" name=\"physical\"/>\n";
         {
@@ -578,21 +641,36 @@ inline std::string xml1x(const Spec &s, const Legacy &l)
             for (size_t i = 0; i < s.comps.size(); ++i) { if (s.comps[i].parent >= 0) leaves.push_back(int(i)); else if (!childrenOf(s, int(i)).empty()) roots.push_back(int(i)); }
             contain += "    <component_ref" + att("component", s.comps[size_t(leaves.front())].name) + ">\n      <component_ref" + att("component", s.comps[size_t(roots.front())].name) + "/>\n    </component_ref>\n  </group>\n";
         }
-        std::string enc = "  <group" + idatt(s.eid) + ">\n"; // the only 1.x carrier of the 2.0 encapsulation id
-        if (l.group == 3) enc += "    <relationship_ref relationship=\"containment\" name=\"physical\"/>\n";
-        enc += "    <relationship_ref relationship=\"encapsulation\"/>\n" + body + "  </group>\n";
-        if (l.group == 1) x += contain;
-        x += enc;
-        if (l.group == 2) x += contain;
+        const std::string relEnc = "    <relationship_ref relationship=\"encapsulation\"/>\n", relCon = "    <relationship_ref relationship=\"containment\" name=\"physical\"/>\n";
+        std::string rels = l.group == 3 ? (l.relSwap ? relEnc + relCon : relCon + relEnc) : relEnc;
+        std::string before, between, after;
+        switch (l.relPos) {
+        case 1: after = rels; break;
+        case 2: if (trees.size() >= 2) between = rels; else after = rels; break;
+        case 3: if (l.group == 3) { before = relCon; after = relEnc; } else after = rels; break;
+        case 4: if (l.group == 3) { before = relEnc; after = relCon; } else before = rels; break;
+        default: before = rels;
+        }
+        std::string enc = "  <group" + idatt(s.eid) + ">\n" + before; // the group is the only 1.x carrier of the 2.0 encapsulation id
+        for (size_t t = 0; t < trees.size(); ++t) { enc += trees[t]; if (t == 0) enc += between; }
+        enc += after + "  </group>\n";
+        block['G'] = (l.group == 1 ? contain : std::string()) + enc + (l.group == 2 ? contain : std::string());
     }
     for (auto &g : connGroups(s)) {
         std::string mc = "    <map_components" + att("component_1", s.comps[size_t(g.ca)].name) + att("component_2", s.comps[size_t(g.cb)].name) + idatt(cidOf(s, g.ca, g.cb)) + "/>\n";
-        x += "  <connection>\n";
-        if (!l.mapcomp) x += mc;
-        for (auto &k : g.maps) x += "    <map_variables" + att("variable_1", s.comps[size_t(k.c1)].vars[size_t(k.v1)].name) + att("variable_2", s.comps[size_t(k.c2)].vars[size_t(k.v2)].name) + idatt(k.mid) + "/>\n";
-        if (l.mapcomp) x += mc;
-        x += "  </connection>\n";
+        std::string x = "  <connection>\n";
+        if (l.mapcomp == 0) x += mc;
+        for (size_t j = 0; j < g.maps.size(); ++j) {
+            auto &k = g.maps[j];
+            x += "    <map_variables" + att("variable_1", s.comps[size_t(k.c1)].vars[size_t(k.v1)].name) + att("variable_2", s.comps[size_t(k.c2)].vars[size_t(k.v2)].name) + idatt(k.mid) + "/>\n";
+            if (l.mapcomp == 2 && j == 0) x += mc;
+        }
+        if (l.mapcomp == 1) x += mc;
+        block['K'] += x + "  </connection>\n";
     }
+    auto blocks = modelBlocks(s, l);
+    std::string x = head;
+    for (int k : unrankPerm(uint64_t(l.modelOrder) % factorial(blocks.size()), int(blocks.size()))) x += block[blocks[size_t(k)]];
     return x + "</model>\n";
 }
 
